@@ -6,4 +6,6 @@ ScoresDef == {1, 2, 3}
 PoolGen == 1..7
 FpGen == [c \in PoolGen |-> c]
 ScoresOne == {1}
+UM_none == {}
+UM_all == {"no", "yes", "improved"}
 ====
